@@ -180,3 +180,39 @@ fn c17_sx1272_tx_power_boost() { tape::init(); tx_power_contract(Sx127x::new(Moc
 #[kani::proof]
 #[kani::unwind(26)]
 fn c17_sx1272_tx_power_rfo() { tape::init(); tx_power_contract(Sx127x::new(MockSpi, MockIv, Config { chip: Sx1272, tcxo_used: false, tx_boost: false, rx_boost: false }), true, false) }
+
+// the LDRO bit programmed by set_modulation_params must still be in the chip after the rest of the TX/RX programme
+// (packet parameters, channel, power, symbol time-out are all read-modify-write or plain writes of neighbouring
+// registers).  Register-file contract of phy_common (A-chip) with arbitrary prior content.
+fn ldro_survives_programme<C: Sx127xVariant>(mut r: Sx127x<MockSpi, MockIv, C>, reg: usize, bit: u8) {
+    unsafe {
+        REGS.on = true;
+        let other = tape::stub_u8();
+        let mut i = 0;
+        while i < 128 { REGS.r[i] = other; i += 1; }
+        // the registers the programme reads get independent arbitrary prior contents
+        REGS.r[0x1d] = tape::stub_u8(); REGS.r[0x1e] = tape::stub_u8(); REGS.r[0x26] = tape::stub_u8();
+        REGS.r[0x31] = tape::stub_u8(); REGS.r[0x37] = tape::stub_u8(); REGS.r[0x09] = tape::stub_u8();
+    }
+    let p = ModulationParams { spreading_factor: SFS[2 + tape::below(6)], bandwidth: BWS[tape::below(10)], coding_rate: [CodingRate::_4_5, CodingRate::_4_6, CodingRate::_4_7, CodingRate::_4_8][tape::below(4)], low_data_rate_optimize: tape::u8() & 1, frequency_in_hz: tape::u32() };
+    let pkt = PacketParams { preamble_length: tape::u16(), implicit_header: tape::boolean(), payload_length: tape::u8(), crc_on: tape::boolean(), iq_inverted: tape::boolean() };
+    let ok = r.set_modulation_params(&p).is_ok()
+        && r.set_tx_power_and_ramp_time(tape::i8() as i32, Some(&p), tape::boolean()).is_ok()
+        && r.set_packet_params(&pkt).is_ok()
+        && r.set_channel(p.frequency_in_hz).is_ok()
+        && r.set_lora_symbol_num_timeout(tape::u16()).is_ok();
+    if ok {
+        let v = unsafe { REGS.r[reg] };
+        assert!(((v >> bit) & 1) == p.low_data_rate_optimize, "C15 the LDRO bit in the chip after the whole TX/RX programme equals the decided value (no later register write disturbs it)");
+    }
+    kani::cover!(ok && p.low_data_rate_optimize == 1, "verif-reached: programme done, LDRO on");
+    kani::cover!(ok && p.low_data_rate_optimize == 0, "verif-reached: programme done, LDRO off");
+}
+// @verif props=C15 obligation=Sx1276::tx_rx_programme.ldro_survives label=proved-complete tier=quick bound="arbitrary prior register file (registers read by the programme independent, all others one shared arbitrary byte), SF7..12 x all BW x all packet parameters"
+#[kani::proof]
+#[kani::unwind(130)]
+fn c15_sx1276_ldro_survives_programme() { tape::init(); ldro_survives_programme(Sx127x::new(MockSpi, MockIv, Config { chip: Sx1276, tcxo_used: false, tx_boost: false, rx_boost: false }), 0x26, 3) }
+// @verif props=C15 obligation=Sx1272::tx_rx_programme.ldro_survives label=proved-complete tier=quick bound="arbitrary prior register file, SF7..12 x all BW x all packet parameters"
+#[kani::proof]
+#[kani::unwind(130)]
+fn c15_sx1272_ldro_survives_programme() { tape::init(); ldro_survives_programme(Sx127x::new(MockSpi, MockIv, Config { chip: Sx1272, tcxo_used: false, tx_boost: false, rx_boost: false }), 0x1d, 0) }
